@@ -24,8 +24,10 @@ func main() {
 	only := fs.Int("only", -1, "hist: generate only the history with this index")
 	foc := fs.String("focus", "", "hist: bias of the generator (dry, multi, cooldown, bands, ...)")
 	bin := fs.String("bin", "", "startup: path of the built escalator binary")
+	realc := fs.Bool("realctor", false, "hist: build every controller through the real NewController (about half a second each: its informers must sync)")
 	fs.Parse(os.Args[2:])
 	slowOK = *slow
+	realCtorAlways = *realc
 	focus = *foc
 	twinOn = stream == "hist" && focus == "multi"
 	w := bufio.NewWriterSize(os.Stdout, 1<<20)
